@@ -541,7 +541,8 @@ def patch_desc_num(img, desc_num):
                   (FI, 'FileInspector._capture')],
          bound='the two chunk-dependences of the pinned tree that are '
                'recorded as known findings (F1 text-descriptor mode, F3 '
-               'footer on streams shorter than 1600 bytes): their witnesses')
+               'footer on streams shorter than 1600 bytes): their witnesses, '
+               'and the short sparse-signature stream repaired by 3ae0bbb')
 def vmdk_known_chunk_dependences():
     M = load(FI)
     BOUND = 1536 * 1024
@@ -557,6 +558,20 @@ def vmdk_known_chunk_dependences():
         res.setdefault(got, sizes[:3])
     check('vmdk/text-descriptor-verdict-independent-of-chunking',
           len(res) == 1, 'C01 C02',
+          detail=sorted((str(k), v) for k, v in res.items()))
+    # same provisional region, sparse signature: a stream that ends before
+    # the 64-byte sparse header is in.  The provisional descriptor region
+    # (min_length=4) holds whatever the first chunks delivered, but nothing
+    # observable may depend on it (before fix 3ae0bbb virtual_size raised
+    # struct.error for one chunking and returned 0 for another)
+    short = b'KDMVcreatetype="monolithicsparse"\nrw 1 sparse "x"\n'
+    res = {}
+    for sizes in ([len(short)], [1] * len(short), [4, len(short)],
+                  [33, len(short)]):
+        got = observe(M, 'VMDKInspector', short, sizes, BOUND, 'F1b')
+        res.setdefault(got, sizes[:3])
+    check('vmdk/short-sparse-signature-stream-verdict-independent-of-'
+          'chunking', len(res) == 1, 'C01',
           detail=sorted((str(k), v) for k, v in res.items()))
     # F3: footer-announcing stream of 1536..1598 bytes
     S = build_vmdk(create_type='streamOptimized', gd_at_end=True)
